@@ -208,16 +208,48 @@ pub fn string_to_number(s: &str) -> f64 {
             _ => 0,
         };
         if radix != 0 {
-            let mut acc = 0f64;
+            // the value of the digit string, correctly rounded once (radix is a power of two, so
+            // the binary expansion is the concatenation of the digits' bits)
+            let bits_per = match radix {
+                16 => 4,
+                8 => 3,
+                _ => 1,
+            };
+            let mut bits: Vec<u8> = Vec::new();
             for &c in &b[2..] {
-                let d = (c as char).to_digit(radix);
-                match d {
-                    Some(d) => acc = acc * radix as f64 + d as f64,
+                let d = match (c as char).to_digit(radix) {
+                    Some(d) => d,
                     None => return f64::NAN,
+                };
+                for k in (0..bits_per).rev() {
+                    bits.push(((d >> k) & 1) as u8);
                 }
             }
-            // exact only while the value fits 53 bits; the corpus stays below that
-            return acc;
+            let first = bits.iter().position(|&x| x == 1);
+            let bits = match first {
+                None => return 0.0,
+                Some(i) => &bits[i..],
+            };
+            if bits.len() <= 64 {
+                let mut v: u64 = 0;
+                for &x in bits {
+                    v = (v << 1) | x as u64;
+                }
+                return v as f64; // u64 -> f64 conversion rounds to nearest, ties to even
+            }
+            let mut m: u64 = 0;
+            for &x in &bits[..64] {
+                m = (m << 1) | x as u64;
+            }
+            let sticky = bits[64..].iter().any(|&x| x == 1);
+            let exp = (bits.len() - 64) as i32;
+            let mut top = m >> 11;
+            let rem = m & 0x7ff;
+            let half = 0x400;
+            if rem > half || (rem == half && (sticky || top & 1 == 1)) {
+                top += 1;
+            }
+            return (top as f64) * 2f64.powi(11 + exp);
         }
     }
     let (neg, rest) = match b[0] {
